@@ -182,12 +182,15 @@ def check_definition(E, names_by_number: Dict[int, List[str]], canon_name: Optio
                                   f"{E.__name__} {how} {nm!r} is {x!r} (id differs from {E.__name__}({n}))", w)
         if copy.copy(m) is not m or copy.deepcopy(m) is not m:
             res.violation("copy", [dc, "identity-lost"], f"copy/deepcopy of {E.__name__}({n}) is a different object", w)
-        try:
-            p = pickle.loads(pickle.dumps(m))
-            if p.name != m.name or int(p) != n or p.value != n:
-                res.violation("pickle", [dc, "name-or-number-lost"], f"pickle of {E.__name__}({n}) -> name {p.name!r} value {p.value!r}", w)
-        except Exception as e:
-            res.violation("pickle", [dc, "raised:" + type(e).__name__], f"pickle of {E.__name__}({n}): {e!r}", w)
+        for proto in range(0, pickle.HIGHEST_PROTOCOL + 1):
+            try:
+                p = pickle.loads(pickle.dumps(m, protocol=proto))
+                if p.name != m.name or int(p) != n or p.value != n:
+                    res.violation("pickle", [dc, "name-or-number-lost", f"protocol-{'0-1' if proto < 2 else '2+'}"],
+                                  f"pickle (protocol {proto}) of {E.__name__}({n}) -> name {p.name!r} value {p.value!r}", w)
+            except Exception as e:
+                res.violation("pickle", [dc, "raised:" + type(e).__name__, f"protocol-{'0-1' if proto < 2 else '2+'}"],
+                              f"pickle (protocol {proto}) of {E.__name__}({n}): {e!r}", w)
         res.counters["members_checked"] += 1
     distinct_objs = {id(v) for v in members.values()}
     if len(distinct_objs) != len(numbers):
@@ -250,6 +253,8 @@ def check_fields(E, H, attrs, values, declared, res: Result, w, dc):
                 except Exception as e:
                     res.violation("binary", [dc, pos, vc, as_, "raised:" + type(e).__name__], f"{E.__name__} value {v} in {pos}: {e!r}", ww)
                     continue
+                if len(m) != len(data):
+                    res.violation("binary", [dc, pos, vc, as_, "len-differs-from-encoding"], f"{E.__name__} value {v} in {pos}: len(m)={len(m)} len(bytes(m))={len(data)}", ww)
                 got = back[1] if pos == "repeated" else (back["k"] if pos == "mapvalue" else back)
                 if not isinstance(got, int) or int(got) != v or not (got == v):
                     res.violation("binary", [dc, pos, vc, as_, "number-changed"], f"{E.__name__} value {v} in {pos} came back as {got!r}", ww)
